@@ -316,6 +316,9 @@ func (c *Container) GetNextBlock() ([]byte, error) {
 	if err != nil {
 		return nil, err
 	}
+	if blockSize > uint64(c.Length()) {
+		return nil, errors.New("container: not enough data to return")
+	}
 	return c.Get(int(blockSize))
 }
 
@@ -324,6 +327,9 @@ func (c *Container) GetNextBlockAsContainer() (*Container, error) {
 	blockSize, err := c.GetNextN64()
 	if err != nil {
 		return nil, err
+	}
+	if blockSize > uint64(c.Length()) {
+		return nil, errors.New("container: not enough data to return")
 	}
 	return c.GetAsContainer(int(blockSize))
 }
